@@ -39,7 +39,10 @@ RULE = ("cases: (a) sinusoids A cos(2 pi f0 n/fs + phi), A in [1e-3,1e3], L in [
         "(main-lobe half-width + 1) bins from 0 and L/2, Kaiser psll in [60,200], orders -1,0,1,2, default and random overlap, "
         "function / method / fres entry points, auto and two-channel; (b) ENBW of every bin of random full plans for kaiser / hann / "
         "callable windows, each configuration run twice in a row with different windows (call history); (c) channel scaling by "
-        "c in {2,0.5,-4} (bit-exact) and generic c on random two-channel and one-channel analyses; (d) fs -> a*fs relabelling. "
+        "c in {2,0.5,-4} (bit-exact) and generic c on random two-channel and one-channel analyses; (c') the same laws over the whole range "
+        "of factors: (cx, cy) with one or both of them in [1e-12,1e-4] / [1e4,1e12] (round decades and generic) and powers of two "
+        "2^+-14..39 (bit-exact), through compute / compute_spectrum / lpsd and the single-bin entry points, incl. cs, ccoh, tf, Hyx, cf; "
+        "(d) fs -> a*fs relabelling. "
         "distinct by (sub-claim, order, L or plan shape, window, scheduler, factor class); non-trivial = tone with K>=1 and rho>0, "
         "plans with >= 2 bins, non-zero records")
 
@@ -471,7 +474,10 @@ def _derived_tols(base, ex, ey, exy, rel):
     coh = aXY ** 2 / (XXs * YYs)
     tH = 1.2 * (exy + H * ex) / XXs + rel * H
     tcoh = 1.3 * ((2 * aXY * exy + exy ** 2) / (XXs * YYs) + coh * (ex / XXs + ey / YYs)) + rel
-    return {"Gxx": k * ex + rel * k * XX, "Gyy": k * ey + rel * k * YY, "Gxy": k * exy + rel * k * aXY, "Hxy": tH, "coh": tcoh, "ok": ok,
+    # complex coherence XY/sqrt(XX*YY): |d ccoh| <= exy/sqrt(XX'YY') + |ccoh| * |1/sqrt((1+dx)(1+dy)) - 1| with |dx|, |dy| <= 0.05 on the `ok` bins
+    rt = np.sqrt(XXs * YYs)
+    tcc = 1.3 * (exy / rt + (aXY / rt) * 0.5 * (ex / XXs + ey / YYs)) + rel
+    return {"Gxx": k * ex + rel * k * XX, "Gyy": k * ey + rel * k * YY, "Gxy": k * exy + rel * k * aXY, "Hxy": tH, "coh": tcoh, "ccoh": tcc, "ok": ok,
             "XX": ex + rel * XX, "YY": ey + rel * YY, "XY": exy + rel * aXY}
 
 
@@ -537,6 +543,132 @@ def check_scale(P: C.Part, c: Dict[str, Any]) -> None:
                 # the untouched channel (tolerance 0) goes through the identical computation: same code path, so bit-for-bit
                 _cmp_arrays(P, c, sig, nm, ob, ex_, tl, exact, what, mask=mask, factor=cf)
     P.sample({"op": "scale", "N": c["N"], "fs": fs, "opts": c["opts"], "win": c["win"], "factors": c["factors"], "bins": nb, "cross": c["cross"]}, cap=2)
+
+
+# ================================================================ (3b) scaling laws over the WHOLE range of scale factors
+# "for all scale factors c > 0": records expressed in very small / very large units (micro-volts, counts of an ADC, ...), one or
+# both channels, full plans and the single-bin entry points.  A threshold with an absolute size anywhere between the samples and
+# the attributes (an epsilon guard, np.isclose against 0, a clip, a "negligible power" cut-off) is invisible at moderate factors.
+WS_LO, WS_HI = -12.0, 12.0             # decimal exponents; DESIGN 8.5 / D11: |x| in [1e-60, 1e60] is finite and accurate on the unchanged tree
+
+
+def _ws_class(v: float) -> str:
+    return "s" if v < 1e-3 else ("b" if v > 1e3 else "1")
+
+
+def gen_wscale(rng: np.random.Generator, thorough: bool) -> Dict[str, Any]:
+    c = gen_scale(rng, thorough, "scale")
+    N, fs = c["N"], c["fs"]
+
+    def sm() -> float:
+        return float(10.0 ** int(rng.integers(-12, -3))) if rng.random() < 0.4 else float(10 ** rng.uniform(WS_LO, -4))
+
+    def bg() -> float:
+        return float(10.0 ** int(rng.integers(4, 13))) if rng.random() < 0.4 else float(10 ** rng.uniform(4, WS_HI))
+
+    def p2(sign: int) -> float:
+        return float(2.0 ** (sign * int(rng.integers(14, 40))))
+
+    def one(v: float) -> List[float]:
+        return [v, 1.0] if rng.random() < 0.5 else [1.0, v]
+    mixed = [sm(), bg()]
+    if rng.random() < 0.5:
+        mixed.reverse()
+    pow2 = [one(p2(-1)), [p2(-1), p2(-1)], one(p2(1)), [p2(1), p2(1)], [p2(1), p2(-1)], [p2(-1), p2(1)]]
+    i, j = (int(v) for v in rng.choice(len(pow2), size=2, replace=False))
+    pairs = [one(sm()), one(bg()), [sm(), sm()], [bg(), bg()] if rng.random() < 0.5 else mixed, pow2[i], pow2[j]]
+    entry = str(rng.choice(["analyzer", "compute_spectrum", "lpsd", "single-func", "single-method", "single-fres"]))
+    L = int(round(math.exp(rng.uniform(math.log(16), math.log(min(N, 1200))))))
+    if entry == "single-fres" and not fres_gives(fs, L):
+        entry = "single-func"
+    c.pop("factors", None)
+    c.update(kind="wscale", cross=bool(rng.random() < 0.85), entry=entry, L=L, f0=float(fs * rng.uniform(0.03, 0.47)), pairs=pairs,
+             rec=[str(rng.choice(["noise", "noise", "tone", "red", "drift", "offset"])), str(rng.choice(["noise", "noise", "tone", "red"]))])
+    return c
+
+
+def _run_any(c: Dict[str, Any], x1, x2, fs: float):
+    """full plans through the three public entries, or one bin through the single-bin entry points"""
+    if not str(c["entry"]).startswith("single-"):
+        return _run(c, x1, x2, fs)
+    o = dict(win_opts(c["win"], c["psll"]), order=int(c["opts"]["order"]), olap=c["opts"]["olap"])
+    data = x1 if x2 is None else (np.vstack([x1, x2]) if c["layout"] == "2xN" else np.ascontiguousarray(np.vstack([x1, x2]).T))
+    return single_bin(data, fs, c["f0"], int(c["L"]), str(c["entry"])[7:], **o)
+
+
+def check_wscale(P: C.Part, c: Dict[str, Any]) -> None:
+    remember(c)
+    x1, x2 = _data_of(c)
+    fs = c["fs"]
+    order = int(c["opts"]["order"])
+    single = str(c["entry"]).startswith("single-")
+    path = "single" if single else "plan"
+    P.cases += 1
+    try:
+        base = _run_any(c, x1, x2, fs)
+    except Exception:  # noqa
+        P.hit("wscale.base-raised")
+        return
+    tx, ty, txy = _budgets(c, base, x1, x2, order)
+    nb = len(base.f)
+    m = 2.5                                      # both runs carry their own rounding error (+ the rounding of c*x)
+    if x2 is None:
+        T = _derived_tols(base, m * tx, m * tx, m * tx, 1e-9)
+    else:
+        T = _derived_tols(base, m * tx, m * ty, m * txy, 1e-9)
+    ok = T["ok"]
+    enbw = np.asarray(base.ENBW)
+    # can this case SEE a ratio that was zeroed / clipped?  (bins above the rounding-noise level with a coherence well above its tolerance)
+    sees = bool(x2 is not None and np.any(ok & (np.asarray(base.coh) > 10 * T["coh"]) & (np.abs(np.asarray(base.Hxy)) > 10 * T["Hxy"])))
+    P.hit(f"wscale.{c['entry']}")
+    for cx, cy in c["pairs"]:
+        if full(P):
+            return
+        cx, cy = float(cx), float(cy)
+        if x2 is None:
+            cy = 1.0
+        P.cases += 1
+        exact = all(math.frexp(v)[0] == 0.5 for v in (cx, cy))
+        cls = _ws_class(cx) + (_ws_class(cy) if x2 is not None else "")
+        chan = "xy" if (cx != 1.0 and cy != 1.0) else ("x" if cx != 1.0 else "y")
+        sig = {"subclaim": "scale-channel", "channel": chan, "exact": exact, "range": cls, "path": path}
+        what = (f"channels multiplied by (cx, cy) = ({cx!r}, {cy!r}) ({c['entry']}, {c['win']} window, order {order}"
+                + (f", L={c['L']}, f={c['f0']!r}" if single else f", {c['opts']['scheduler']}") + ")")
+        try:
+            r = _run_any(c, cx * x1, None if x2 is None else cy * x2, fs)
+        except Exception as ex:  # noqa
+            viol(P, f"{what}: analysis raised {ex!r} although the unscaled one succeeded", dict(sig, raises=True), c, factor=[cx, cy])
+            continue
+        if not _same_plan(base, r) or not np.array_equal(base.f, r.f) or not np.array_equal(base.ENBW, r.ENBW):
+            viol(P, f"{what}: the plan (f, L, K, D) or ENBW changed with the data scale", dict(sig, field="plan"), c, factor=[cx, cy])
+            continue
+        P.hit(f"wscale.{path}.{cls}")
+        if float(np.max(base.XX)) > 0 and (x2 is None or sees):
+            P.nontrivial.add(("wscale", c["entry"], cls, "exact" if exact else "generic", order, c["cross"], c["win"]))
+        c2x, c2y, cxy, ratio = cx * cx, cy * cy, cx * cy, cy / cx
+        zero = 0.0 * tx                          # a channel that was not touched goes through the identical computation: bit-for-bit
+        tXX = zero if cx == 1.0 else T["XX"] * c2x
+        tGxx = zero if cx == 1.0 else T["Gxx"] * c2x
+        if x2 is None:
+            tests = [("XX", r.XX, base.XX * c2x, tXX, None), ("Gxx", r.Gxx, base.Gxx * c2x, tGxx, None),
+                     ("psd", r.psd, base.psd * c2x, T["Gxx"] * c2x, None), ("ps", r.ps, base.ps * c2x, T["Gxx"] * c2x * enbw, None)]
+        else:
+            tYY = zero if cy == 1.0 else T["YY"] * c2y
+            tGyy = zero if cy == 1.0 else T["Gyy"] * c2y
+            tests = [("XX", r.XX, base.XX * c2x, tXX, None), ("YY", r.YY, base.YY * c2y, tYY, None), ("XY", r.XY, base.XY * cxy, T["XY"] * cxy, None),
+                     ("Gxx", r.Gxx, base.Gxx * c2x, tGxx, None), ("Gyy", r.Gyy, base.Gyy * c2y, tGyy, None),
+                     ("Gxy", r.Gxy, base.Gxy * cxy, T["Gxy"] * cxy, None), ("csd", r.csd, base.csd * cxy, T["Gxy"] * cxy, None),
+                     ("cs", r.cs, base.cs * cxy, T["Gxy"] * cxy * enbw + 1e-9 * np.abs(np.asarray(base.cs)) * cxy, None),
+                     ("coh", r.coh, base.coh, T["coh"], ok), ("ccoh", r.ccoh, base.ccoh, T["ccoh"], ok),
+                     ("Hxy", r.Hxy, base.Hxy * ratio, T["Hxy"] * ratio, ok), ("tf", r.tf, base.tf * ratio, T["Hxy"] * ratio, ok),
+                     ("Hyx", r.Hyx, base.Hyx * ratio, T["Hxy"] * ratio, ok), ("cf", r.cf, base.cf * ratio, T["Hxy"] * ratio, ok)]
+        for nm, ob, ex_, tl, mask in tests:
+            if ob is None or ex_ is None:
+                viol(P, f"{what}: attribute {nm} is None", dict(sig, field=nm), c, factor=[cx, cy])
+                continue
+            _cmp_arrays(P, c, sig, nm, ob, ex_, tl, exact, what, mask=mask, factor=[cx, cy])
+    P.sample({"op": "wide-scale", "N": c["N"], "fs": fs, "entry": c["entry"], "opts": c["opts"], "win": c["win"], "pairs": c["pairs"], "bins": nb,
+              "cross": c["cross"], "sees-ratios": sees}, cap=2)
 
 
 def check_fs(P: C.Part, c: Dict[str, Any]) -> None:
@@ -679,9 +811,17 @@ CORPUS = [
      "via": "func", "cross": True, "B": 0.3, "phi2": 1.0, "win": "np_kaiser"},
     {"kind": "enbw", "N": 6000, "dseed": 7, "fs": 2.0, "opts": {"order": 0, "olap": 0.5, "Jdes": 20, "Kdes": 10, "bmin": 1.0, "Lmin": 1, "scheduler": "vectorized_ltf"},
      "seq": [["kaiser", 200.0], ["kaiser", 70.0], ["hann", None], ["np_kaiser", 120.0]], "cross": False, "rec": "noise", "single_L": 400},
+    # records in micro-units / mega-units (seeded/C06c: exact zero guards of coh / ccoh / Hxy replaced by np.isclose(., 0), atol 1e-8):
+    # one bin through compute_single_bin, and a full plan through compute_spectrum
+    {"kind": "wscale", "N": 4000, "dseed": 11, "fs": 10.0, "opts": {"order": 0, "olap": 0.5, "Jdes": 20, "Kdes": 10, "bmin": 1.0, "Lmin": 1, "scheduler": "ltf"},
+     "win": "kaiser", "psll": 120.0, "cross": True, "rec": ["noise", "noise"], "entry": "single-func", "layout": "2xN", "L": 500, "f0": 1.2345,
+     "pairs": [[1e-6, 1e-6], [3e-5, 1.0], [1.0, 1e-9], [1e-7, 1e2], [1e6, 1e6], [2.0 ** -30, 2.0 ** -30], [2.0 ** 35, 1.0]]},
+    {"kind": "wscale", "N": 3000, "dseed": 12, "fs": 1.0, "opts": {"order": 0, "olap": 0.5, "Jdes": 20, "Kdes": 10, "bmin": 1.0, "Lmin": 1, "scheduler": "lpsd"},
+     "win": "hann", "psll": None, "cross": True, "rec": ["noise", "tone"], "entry": "compute_spectrum", "layout": "Nx2", "L": 300, "f0": 0.11,
+     "pairs": [[1e-6, 1.0], [2e-5, 2e-5], [1e3, 1e-9], [1e12, 1e12], [1e-12, 1e-12], [2.0 ** -25, 1.0]]},
 ]
 
-CHECKS = {"calib": check_calib, "enbw": check_enbw, "scale": check_scale, "fs": check_fs, "fs_single": check_fs_single}
+CHECKS = {"calib": check_calib, "enbw": check_enbw, "scale": check_scale, "wscale": check_wscale, "fs": check_fs, "fs_single": check_fs_single}
 
 
 def oracle(ctx, intensive: bool = False, hints=()) -> C.Part:
@@ -692,11 +832,11 @@ def oracle(ctx, intensive: bool = False, hints=()) -> C.Part:
         CHECKS[c["kind"]](P, c)
     check_edges(P)
     plan = [("calib", ctx.scale(600, 5000) * mult), ("enbw", ctx.scale(80, 600) * mult), ("scale", ctx.scale(80, 600) * mult),
-            ("fs", ctx.scale(60, 450) * mult), ("fs_single", ctx.scale(40, 300) * mult)]
+            ("wscale", ctx.scale(36, 300) * mult), ("fs", ctx.scale(60, 450) * mult), ("fs_single", ctx.scale(40, 300) * mult)]
     total = float(sum(n for _, n in plan))
     t_all = max(30.0, min(ctx.time_left() - 20.0, (600.0 if ctx.thorough else 70.0) * mult))
     import time
-    share = {"calib": 0.3, "enbw": 0.2, "scale": 0.3, "fs": 0.15, "fs_single": 0.05}
+    share = {"calib": 0.3, "enbw": 0.2, "scale": 0.3, "wscale": 0.1, "fs": 0.15, "fs_single": 0.05}
     for kind, n in plan:
         t0 = time.time()
         for i in range(n):
@@ -710,6 +850,12 @@ def oracle(ctx, intensive: bool = False, hints=()) -> C.Part:
                 c = gen_calib(sub, ctx.thorough, order=[-1, 0, -1, 0, 1, 2][i % 6])
             elif kind == "enbw":
                 c = gen_enbw(sub, ctx.thorough)
+            elif kind == "wscale":
+                c = gen_wscale(sub, ctx.thorough)
+                c["entry"] = ["single-func", "compute_spectrum", "single-method", "analyzer", "single-fres", "lpsd"][i % 6]
+                if c["entry"] == "single-fres" and not fres_gives(c["fs"], c["L"]):
+                    c["entry"] = "single-func"
+                c["cross"] = i % 7 != 6
             elif kind == "fs_single":
                 c = gen_calib(sub, ctx.thorough, order=[-1, 0][i % 2])
                 c.update(kind="fs_single", cross=False)
